@@ -223,12 +223,61 @@ impl CallArgs {
     }
 }
 
+/// Extended processor state of a thread: x87, SSE, AVX (and so on) registers, in other words
+/// all registers that are not a part of [`RegisterMap`].
+struct ExtendedState(Vec<u8>);
+
+impl ExtendedState {
+    /// NT_X86_XSTATE register set.
+    const NT_X86_XSTATE: usize = 0x202;
+    /// Enough for any known XSAVE area.
+    const MAX_XSAVE_AREA_SIZE: usize = 16 * 1024;
+
+    fn current(pid: nix::unistd::Pid) -> Result<Self, Error> {
+        let mut buf = vec![0u8; Self::MAX_XSAVE_AREA_SIZE];
+        let mut iov = libc::iovec {
+            iov_base: buf.as_mut_ptr().cast(),
+            iov_len: buf.len(),
+        };
+        let res = unsafe {
+            libc::ptrace(
+                libc::PTRACE_GETREGSET,
+                pid.as_raw(),
+                Self::NT_X86_XSTATE,
+                &mut iov as *mut libc::iovec,
+            )
+        };
+        nix::errno::Errno::result(res).map_err(Error::Ptrace)?;
+        buf.truncate(iov.iov_len);
+        Ok(Self(buf))
+    }
+
+    fn persist(&mut self, pid: nix::unistd::Pid) -> Result<(), Error> {
+        let mut iov = libc::iovec {
+            iov_base: self.0.as_mut_ptr().cast(),
+            iov_len: self.0.len(),
+        };
+        let res = unsafe {
+            libc::ptrace(
+                libc::PTRACE_SETREGSET,
+                pid.as_raw(),
+                Self::NT_X86_XSTATE,
+                &mut iov as *mut libc::iovec,
+            )
+        };
+        nix::errno::Errno::result(res)
+            .map(drop)
+            .map_err(Error::Ptrace)
+    }
+}
+
 /// Call context (or ccx). Program state before a call.
 struct CallContext<'a> {
     dbg: &'a Debugger,
     pid: nix::unistd::Pid,
     pc: RelocatedAddress,
     regs: RegisterMap,
+    ext_state: ExtendedState,
     text: usize,
 }
 
@@ -236,6 +285,8 @@ impl<'a> CallContext<'a> {
     fn new(dbg: &'a Debugger) -> Result<Self, Error> {
         let pid = dbg.ecx().pid_on_focus();
         let regs = RegisterMap::current(pid)?;
+        // a called function is free to use floating point and vector registers
+        let ext_state = ExtendedState::current(pid)?;
         // the code to patch is where the thread really executes, not at the pc of the
         // frame selected by the user (which may differ after the `frame` command)
         let pc = RelocatedAddress::from(regs.value(Register::Rip));
@@ -247,12 +298,14 @@ impl<'a> CallContext<'a> {
             pid,
             pc,
             regs,
+            ext_state,
             text,
         })
     }
 
-    fn retrieve_original_state(self) -> Result<(), Error> {
+    fn retrieve_original_state(mut self) -> Result<(), Error> {
         self.regs.clone().persist(self.pid)?; // TODO clone
+        self.ext_state.persist(self.pid)?;
         self.dbg.write_memory(self.pc.as_usize(), self.text)?;
         Ok(())
     }
